@@ -124,6 +124,14 @@ EXTRA["C02"] = EXTRA.get("C02", []) + _BURST(True)
 for _p in ("C01", "C03", "C05", "C11"):
     EXTRA[_p] = EXTRA.get(_p, []) + _BURST(False)
 
+# sim transport v2: fault countdowns ("fail the k-th call of a kind": `fault-skip n` before `fault <kind>`) and sinks that do
+# not wake their owner when the owner's own flush restores readiness (`self-wake 0`; client, and server without a limit)
+for _p, _sides in (("C09", ("cli", "srv")), ("C14", ("cli", "srv")), ("C10", ("cli", "srv")), ("C03", ("cli",)), ("C08", ("srv",))):
+    EXTRA[_p] = EXTRA.get(_p, []) + [(sd, ["--scripts=250", "--len=90", "--v2=1", "--faults=1"],
+                                      ["--scripts=12000", "--len=100", "--v2=1", "--faults=1"], f"{sd}-v2-faults") for sd in _sides]
+EXTRA["C02"] = EXTRA.get("C02", []) + [(sd, ["--scripts=250", "--len=90", "--v2=1", "--wo=1"],
+                                        ["--scripts=12000", "--len=100", "--v2=1", "--wo=1"], f"{sd}-v2-wo") for sd in ("cli", "srv")]
+
 # families judged by the monitors only (projection = op lines); none at present
 MONITOR_ONLY = set()
 
